@@ -5,6 +5,7 @@
 import RbModel.Lemmas.BufZipper
 import RbModel.Lemmas.Lifecycle
 import RbModel.Lemmas.LifecycleBound
+import RbModel.Lemmas.NormMarks
 
 namespace RbModel.Buf
 
@@ -122,3 +123,61 @@ example : ∃ b', Steps exBuf.enter [.clearOutput, .next, .outputGlyph 9, .nexts
   decide
 
 end RbModel.Buf
+
+
+/-! ## `reorder_marks_arabic` and its fixed scratch array (normalizer, second round)
+
+`ot_shaper_arabic.rs::reorder_marks_arabic` copies a run of modifier combining marks into
+`[hb_glyph_info_t::default(); MAX_COMBINING_MARKS]`; the only thing that bounds the run is the guard
+`if end - i <= MAX_COMBINING_MARKS` around the sort AND the callback in `_hb_ot_shape_normalize`
+(`Norm.round2With`, tied to the crate by the stream `norm-run-shaper` of ./check C09). -/
+
+namespace RbModel.Norm
+
+/-- the tree's constants: the scratch array of `reorder_marks_arabic` holds `MAX_COMBINING_MARKS` records, the cap of
+    the normalizer's guard does not exceed it, and the Arabic shaper record has the callback (regenerated on every run) -/
+theorem C01_gen_reorder_scratch_suffices :
+    genK.maxMarks ≤ genA.scratchLen ∧ Gen.NormMarks.arabicHasReorder = true := by decide
+
+/-- **`reorder_marks_arabic` within its scratch array.**  Called on `info[start..end]` of any buffer with
+    `end ≤ len` and `end - start ≤` the size of its scratch array (whatever the marks, classes, clusters and the list of
+    modifier marks are), the callback returns — neither the debug assertion `j - i <= MAX_COMBINING_MARKS` nor the slice
+    `temp[..j - i]` nor an index into `info` can fail — and the buffer keeps its length. -/
+theorem C01_reorder_marks_arabic_bounded (K : Consts) (A : ArabicMarks) (buf : List Info) (start end_ : Nat)
+    (hend : end_ ≤ buf.length) (hfit : end_ - start ≤ A.scratchLen) :
+    ∃ b, reorderMarksArabic K A buf start end_ = .ok b ∧ b.length = buf.length :=
+  reorderMarksArabic_ok K A buf start end_ hend hfit
+
+/-- non-vacuity, and the callback does something: BEH, FATHA (mcc 30), HAMZA ABOVE (230, a modifier mark) — the hamza
+    moves in front of the fatha and is renumbered to `CCC26` -/
+example :
+    (reorderMarksArabic genK genA
+      [⟨0x628, 0, 0, 0, {}⟩, ⟨0x64E, 0, 1, 0, { cls := 1, hi := 30 }⟩, ⟨0x654, 0, 2, 0, { cls := 1, hi := 230 }⟩] 1 3).toOption
+    = some [⟨0x628, 0, 0, 0, {}⟩, ⟨0x654, 0, 1, 0, { cls := 1, hi := 26 }⟩, ⟨0x64E, 0, 1, 0, { cls := 1, hi := 30 }⟩] := by
+  decide
+
+/-- the hypothesis `end - start ≤ scratch` is needed: on a run of 33 HAMZA ABOVE the callback panics -/
+theorem known_C01_reorder_marks_arabic_beyond_scratch :
+    (reorderMarksArabic genK genA (List.replicate 33 ⟨0x654, 0, 0, 0, { cls := 1, hi := 230 }⟩) 0 33).toOption
+      = none := by
+  decide
+
+/-- **The second round consults the callback only on runs of at most `MAX_COMBINING_MARKS` records**: what a callback
+    would do on a longer run (or past the end of the buffer) does not influence the round. -/
+theorem C01_reorder_marks_called_within_cap (K : Consts) (f g : ReorderMarks)
+    (hfg : ∀ buf s e, e - s ≤ K.maxMarks → e ≤ buf.length → f buf s e = g buf s e) (pre l : List Info) :
+    round2With K (some f) pre l = round2With K (some g) pre l :=
+  round2With_congr K f g hfg pre l
+
+/-- **The second round under the Arabic shaper is total**: for every buffer, with the guard around the sort and the
+    callback and a scratch array of at least `MAX_COMBINING_MARKS` records, the round returns. -/
+theorem C01_round2_arabic_total (K : Consts) (A : ArabicMarks) (hKA : K.maxMarks ≤ A.scratchLen) (pre l : List Info) :
+    ∃ b, round2With K (some (reorderMarksArabic K A)) pre l = .ok b :=
+  round2With_arabic_ok K A hKA pre l
+
+/-- … in particular with the tree's constants -/
+theorem C01_round2_arabic_total_gen (pre l : List Info) :
+    ∃ b, round2With genK (some (reorderMarksArabic genK genA)) pre l = .ok b :=
+  round2With_arabic_ok genK genA C01_gen_reorder_scratch_suffices.1 pre l
+
+end RbModel.Norm
